@@ -48,6 +48,7 @@ func (s *Segment) getDocStoredOffsets(docNum uint64) (indexOffset, storedOffset,
 	if err != nil {
 		return 0, 0, 0, 0, 0, err
 	}
+	verifGate("stored:decompressed")
 
 	metaLenData := s.storedFieldChunkUncompressed[int(storedOffset):int(storedOffset+binary.MaxVarintLen64)]
 	var read int
